@@ -56,7 +56,9 @@ class ProbabilisticAgent(AbstractScriptedAgent, discriminator="probabilistic-age
     @property
     def probabilities(self) -> Dict[str, int]:
         """Convenience method to view the probabilities of the Agent."""
-        return np.asarray(list(self.config.agent_settings.action_probabilities.values()))
+        # ordered by action index (the mapping's keys), not by the order in which the mapping happens to be written
+        action_probabilities = self.config.agent_settings.action_probabilities
+        return np.asarray([action_probabilities[i] for i in sorted(action_probabilities)])
 
     def get_action(self, obs: ObsType, timestep: int = 0) -> Tuple[str, Dict]:
         """
